@@ -458,6 +458,20 @@ def ob_skeleton():
                            "point_pi1 / point_neg_pi2 -> pi(Q), -pi^2(Q) (L3_point_pi1, L3_point_neg_pi2)", "final_exponent -> marker (L4_final_exponent_is_p12m1_over_N)", "to_affine_point -> (xP, yP, 1) (C13 L3_G1_to_affine_point)"])
 
 
+def ob_fp12_one():
+    """Fp12::one() (the start value of the Miller variable) is the multiplicative identity of the tower"""
+    def body(stats):
+        paths = run_l3(CRATE, W9, "<Fp12 as FieldElement>::one", lambda dom, ctx: ([], None))
+        check_all_panics(stats, paths)
+        live = live_paths(paths)
+        if len(live) != 1:
+            raise Inconclusive("Fp12::one: %d paths" % len(live))
+        ctx, (dom, _, r) = live[0]
+        discharge(stats, ctx.facts + ctx.pc, fp12_poly(r).eq(Poly([z3.RealVal(1)])), "Fp12::one() == 1 (Montgomery form of 1 in the w^0 coordinate, zeros elsewhere)", None, 30)
+        return {}
+    return run_obligation("L3_Fp12_one_is_identity", ["gm_sm9::fields::fp12::<Fp12 as FieldElement>::one"], "constant", body)
+
+
 def ob_annex_anchor():
     """concrete anchor (validation of the conventions used above, not a solver result): the standard's Annex A signature example
     only verifies if e(P1, Ppub-s) and e(S, [h1]P2 + Ppub-s) have the standard's values"""
@@ -477,7 +491,7 @@ def ob_annex_anchor():
 def jobs_for(tier):
     return [ob_skeleton, ob_line_tangent, lambda: ob_line_chord(False), lambda: ob_line_chord(True), ob_line_mul, ob_final_exponent,
             lambda: ob_frobenius("fp12_frobenius", 1), lambda: ob_frobenius("fp12_frobenius2", 2), lambda: ob_frobenius("fp12_frobenius3", 3), lambda: ob_frobenius("fp12_frobenius6", 6),
-            lambda: ob_pi("point_pi1", 1, False), lambda: ob_pi("point_neg_pi2", 2, True), ob_annex_anchor]
+            lambda: ob_pi("point_pi1", 1, False), lambda: ob_pi("point_neg_pi2", 2, True), ob_fp12_one, ob_annex_anchor]
 
 
 def run(tier, seed, t0):
